@@ -2,7 +2,7 @@
 from .c11seq import Model, PRIMS, HALF, recipe
 from .common import muted
 
-KINDS = ['disc_prim_then_drive', 'disc_struct_then_drive', 'disc_unrelated', 'drv_prim_prim', 'drv_same_leaf_twice', 'drv_same_block_twice', 'drv_wrap_then_outside', 'drv_outside_then_wrap',
+KINDS = ['dup_iface_removed_shared', 'dup_iface_removed_used', 'disc_prim_then_drive', 'disc_struct_then_drive', 'disc_unrelated', 'drv_prim_prim', 'drv_same_leaf_twice', 'drv_same_block_twice', 'drv_wrap_then_outside', 'drv_outside_then_wrap',
          'drv_leaf_then_block', 'drv_block_then_leaf', 'drv_two_ports_one_leaf', 'drv_inout', 'drv_interface',
          'dup_child', 'dup_wire', 'dup_wires', 'dup_rename', 'dup_reparent', 'dup_reparent_rename',
          'dup_iface_plain_first', 'dup_iface_twice', 'dup_iface_cross', 'dup_iface_then_plain']
@@ -32,6 +32,35 @@ def probe(src, entry, cfg):
 
 
 _PRIM = {}
+_AXI = {}
+
+
+def probe_axi(cls, args):
+    """signals of a library interface class in creation order, and the signal names of its sub-interfaces (throw-away build)"""
+    key = (cls, repr(args))
+    if key not in _AXI:
+        import py4hw
+        from py4hw.logic.bus import axi
+        hw = py4hw.HWSystem()
+        with muted():
+            f = getattr(axi, cls)(hw, 'p', *args)
+        dirs = {}
+        for n, w in f.sourceToSink:
+            dirs[id(w)] = ('s2s', n)
+        for n, w in f.sinkToSource:
+            dirs[id(w)] = ('k2s', n)
+        sigs = [[dirs[id(w)][0], dirs[id(w)][1], w.getWidth()] for w in hw._wires.values() if id(w) in dirs]
+        subs = {}
+        for which, fn in (('write', 'getWriteSubInterface'), ('read', 'getReadSubInterface')):
+            if hasattr(f, fn):
+                with muted():
+                    sub = getattr(f, fn)()
+                subs[which] = dict(s2s=[x[0] for x in sub.sourceToSink], k2s=[x[0] for x in sub.sinkToSource])
+        _AXI[key] = (sigs, subs)
+    return _AXI[key]
+
+
+AXI_CLASSES = [('AXI4Interface', [32, 64, 4]), ('AXI4Interface', [16, 32, 2]), ('AXI4LiteInterface', [32, 32]), ('AXI4StreamInterface', [32])]
 
 
 def probe_prim(src, entry, cfg):
@@ -91,7 +120,8 @@ class Gen:
         return wid
 
     def _ord(self, width=None):
-        return [k for k, w in self.m.wires.items() if w['kind'] == 'wire' and w['reg'] and k != 'W_clk' and (width is None or w['width'] == width)]
+        return [k for k, w in self.m.wires.items() if w['kind'] == 'wire' and w['reg'] and not w.get('free') and k != 'W_clk'
+                and (width is None or w['width'] == width)]
 
     def free_wire(self, width, prob_new=0.4):
         c = [k for k in self._ord(width) if self.m.wires[k]['driver'] is None]
@@ -182,9 +212,48 @@ class Gen:
         op = dict(op='ifwire', iid=iid, name=name or self.fresh('s'), dir=d or self.rnd.choice(['s2s', 'k2s']), width=width or self.width(), wid=wid)
         return op
 
+    def axi(self, scope=None, name=None, full=False):
+        cls, args = self.rnd.choice(AXI_CLASSES[:2] if full else AXI_CLASSES)
+        sigs, subs = probe_axi(cls, args)
+        iid = self.fresh('I')
+        self.emit(dict(op='axi', iid=iid, scope=scope or self.scope(), name=name or self.fresh('axi'), cls=cls, args=args,
+                       sigs=[[d, n, w, self.fresh('W')] for d, n, w in sigs]))
+        return iid, subs
+
+    def subif(self, of, subs, which=None):
+        which = which or self.rnd.choice(sorted(subs))
+        iid = self.fresh('I')
+        self.emit(dict(op='subif', iid=iid, of=of, which=which, names=subs[which]))
+        return iid
+
+    def bg_interfaces(self):
+        """library interfaces, sub-interfaces, references between plain interfaces, signals dropped again"""
+        q = self.rnd.random()
+        if q < 0.35:
+            iid, subs = self.axi()
+            if subs and self.rnd.random() < 0.7:
+                self.subif(iid, subs)
+        else:
+            a = self._iface_with_wires()
+            b = self.iface(scope=self.m.ifaces[a]['scope'])
+            fa = self.m.ifaces[a]
+            for d in ('s2s', 'k2s'):
+                for n in list(fa['n_' + d]):
+                    if self.rnd.random() < 0.7:
+                        self.emit(dict(op='ifref', iid=b, of=a, dir=d, name=n))
+            iid = b
+        # drop some signals from an interface that holds them (shared ones stay wires of the parent; sole, unused ones are not judged)
+        for _ in range(self.rnd.randrange(0, 3)):
+            f = self.m.ifaces[iid]
+            d = self.rnd.choice(['s2s', 'k2s'])
+            if f['n_' + d]:
+                self.emit(dict(op='ifremove', iid=iid, dir=d, name=self.rnd.choice(f['n_' + d])))
+
     # ------------------------------------------------------------ background
     def background(self):
         r = self.rnd.random()
+        if r > 0.97:
+            return self.bg_interfaces()
         if r < 0.22:
             self.new_wire(kind='bidir' if self.rnd.random() < 0.1 else 'wire')
         elif r < 0.27:
@@ -199,7 +268,7 @@ class Gen:
         elif r < 0.76:
             self.emit(self.wrap_op(depth=self.rnd.randrange(1, 4)))
         elif r < 0.90:
-            c = [k for k in self.m.wires if k != 'W_clk' and self.m.wires[k]['reg']]
+            c = [k for k in self.m.wires if k != 'W_clk' and self.m.wires[k]['reg'] and not self.m.wires[k].get('free')]
             if not c:
                 return self.new_wire()
             wid = self.rnd.choice(c)
@@ -505,6 +574,62 @@ class Gen:
         self.emit(self.ifwire(i1, name=b + '_' + c))
         i2 = self.iface(scope=s, name=a + '_' + b)
         self.emit(self.ifwire(i2, name=c if f else self.fresh('c')))
+
+    def _retake(self, scope, bus, sig, width, f):
+        """try to create a wire called <bus>_<sig> in scope again, one of four ways (f False: a fresh name instead)"""
+        name = bus + '_' + sig
+        how = self.rnd.randrange(4)
+        if how == 0:
+            self.new_wire(scope=scope, name=name if f else self.fresh('w'), width=width, kind=self.rnd.choice(['wire', 'wire', 'bidir']))
+        elif how == 1:
+            other = self.iface(scope=scope, name=bus if f else self.fresh('bus'))
+            self.emit(self.ifwire(other, name=sig, width=width))
+        elif how == 2:
+            b = self.new_wire(scope=scope)
+            self.emit(dict(op='rename', wid=b, new=name if f else self.fresh('w')))
+        else:
+            b = self.new_wire()
+            self.emit(dict(op='reparentAndRename', wid=b, to=scope, new=name if f else self.fresh('w')))
+
+    def g_dup_iface_removed_shared(self, f):
+        """a signal held by two interfaces (AXI4 + its write/read sub-interface, or two plain interfaces sharing by reference) is
+        dropped from one of them: its wire is still a wire of the parent, the name stays taken"""
+        if self.rnd.random() < 0.6:
+            full, subs = self.axi(full=True)
+            sub = self.subif(full, subs)
+        else:
+            full = self._iface_with_wires()
+            sub = self.iface(scope=self.m.ifaces[full]['scope'])
+            for d in ('s2s', 'k2s'):
+                for n in self.m.ifaces[full]['n_' + d]:
+                    self.emit(dict(op='ifref', iid=sub, of=full, dir=d, name=n))
+        fs = self.m.ifaces[sub]
+        d = self.rnd.choice([x for x in ('s2s', 'k2s') if fs['n_' + x]])
+        k = self.rnd.randrange(len(fs['n_' + d]))
+        sig, wid = fs['n_' + d][k], fs[d][k]
+        width = self.m.wires[wid]['width']
+        if self.rnd.random() < 0.5:      # the design keeps using the wire through the other interface
+            self.emit(self.leaf_op(cls='Constant', width=width, outs=[wid]))
+        # dropped from the sub-interface (the usual trimming) or from the full one (the sub-interface keeps it)
+        self.emit(dict(op='ifremove', iid=sub if self.rnd.random() < 0.7 else full, dir=d, name=sig))
+        for _ in range(self.rnd.randrange(0, 3)):
+            self.background()
+        self._retake(self.m.ifaces[full]['scope'], self.m.ifaces[full]['name'], sig, width, f)
+
+    def g_dup_iface_removed_used(self, f):
+        """a signal is dropped from its only interface while blocks are attached to its wire: still a wire of the parent"""
+        iid = self._iface_with_wires()
+        fi = self.m.ifaces[iid]
+        d = self.rnd.choice([x for x in ('s2s', 'k2s') if fi['n_' + x]])
+        k = self.rnd.randrange(len(fi['n_' + d]))
+        sig, wid = fi['n_' + d][k], fi[d][k]
+        width = self.m.wires[wid]['width']
+        if self.rnd.random() < 0.5:
+            self.emit(self.leaf_op(cls=self.rnd.choice(['Constant', 'Buf', 'Reg']), width=width, outs=[wid]))
+        else:
+            self.emit(self.leaf_op(cls=self.rnd.choice(['Buf', 'Not']), width=width, ins=[wid]))
+        self.emit(dict(op='ifremove', iid=iid, dir=d, name=sig))
+        self._retake(fi['scope'], fi['name'], sig, width, f)
 
     def g_dup_iface_then_plain(self, f):
         s = self.scope()
